@@ -653,9 +653,16 @@ class TaskPool:
                     TASK_STATUS_FAILED,
                     TASK_STATUS_SUCCEEDED
             ):
-                for message in json.loads(outputs_str):
-                    itask.state.outputs.set_message_complete(message)
-                    self.data_store_mgr.delta_task_output(itask, message)
+                outputs = json.loads(outputs_str)
+                for output in outputs:
+                    if isinstance(outputs, dict):
+                        # {trigger: message} - match triggers, not messages
+                        # (as in _load_historical_outputs)
+                        itask.state.outputs.set_trigger_complete(output)
+                    else:
+                        # [message] (Cylc >8.0.0,<8.3.0)
+                        itask.state.outputs.set_message_complete(output)
+                    self.data_store_mgr.delta_task_output(itask, output)
 
             if platform_name and status != TASK_STATUS_WAITING:
                 itask.summary['platforms_used'][
